@@ -542,7 +542,25 @@ impl Property for C15 {
         }
         fmt.push_str("\\n");
         let deep = vals.iter().any(|v| v.depth() >= 4 && fields_out_of_order(v));
-        let prog: Prog = vec![print(&fmt, vals)];
+        // a quarter of the prints run while operands of an enclosing expression are waiting on
+        // the operand stack: as the second argument of a call, of another print or of a method, as
+        // the right operand of an operator, as a later member of an object, as an array initializer
+        let inner = print(&fmt, vals);
+        let prog: Prog = if t.chance(64) {
+            ctx.label("print-with-pending-operands");
+            let two = E::Fun("two".into(), vec!["a".into(), "b".into()], bx(print("two ~ ~\\n", vec![var("a"), var("b")])));
+            match t.pick(7) {
+                0 => vec![two, call("two", vec![E::Int(7), inner])],
+                1 => vec![print("outer ~ ~ ~\\n", vec![E::Int(1), inner, E::Int(3)])],
+                2 => vec![print("sum ~\\n", vec![bin("+", E::Int(8), E::Block(vec![inner, E::Int(2)]))])],
+                3 => vec![print("obj ~\\n", vec![E::Object(None, vec![Member::Field("a".into(), E::Int(7)), Member::Field("b".into(), inner), Member::Field("c".into(), E::Int(9))])])],
+                4 => vec![print("arr ~\\n", vec![E::Array(bx(E::Int(2)), bx(inner))])],
+                5 => vec![two, call("two", vec![E::Block(vec![inner.clone(), E::Int(1)]), E::Block(vec![inner, E::Int(2)])])],
+                _ => vec![let_("o", E::Object(None, vec![Member::Method("m".into(), vec!["a".into(), "b".into()], print("m ~ ~\\n", vec![var("a"), var("b")]))])), mcall(var("o"), "m", vec![E::Int(5), inner])],
+            }
+        } else {
+            vec![inner]
+        };
         let r = refsem::run(&prog, refsem::DEFAULT_FUEL);
         if r.outcome != Outcome::Ok {
             ctx.exclude("reference-not-ok");
